@@ -117,6 +117,12 @@ def option_cases(tier):
     for r in base:
         out.append(("shared_Sum", None, r))
         out.append(("shared_Treatment", None, r))
+    out.append(("shared_Sum", None, None))  # Sum() / Treatment() with their defaults, shared by two factors
+    out.append(("shared_Treatment", None, None))
+    # levels= must name exactly the levels of the data; tuples are as good as lists
+    for how in ("missing_one", "extra_one", "tuple", "tuple_T", "tuple_S"):
+        out.append(("levels_decl", how, None))
+    out.append(("handed_out", None, None))
     if tier != "quick":
         for perm in list(itertools.permutations([-1, 0, 2, 5, 7])):
             out.append(("C_levels5", list(perm), None))
@@ -137,6 +143,10 @@ def harness(env, case):
     kind, lv, r = case
     if kind.startswith("shared_"):
         return shared_encoding(env, kind, r)
+    if kind == "levels_decl":
+        return levels_declaration(env, lv)
+    if kind == "handed_out":
+        return handed_out(env)
     data_levels = sorted(lv) if lv else LEVELS4[: harness.nl]
     # training frame: every level twice, scrambled; numeric cells symbolic
     L = len(data_levels)
@@ -197,23 +207,98 @@ def harness(env, case):
             env.prove(False, f"{tag}: number of columns", {"got": X.shape, "want": want.shape})
 
 
+def levels_declaration(env, how):
+    """levels= naming fewer / more levels than the data holds is refused; a tuple is accepted like a list"""
+    from formulae import design_matrices
+
+    data_levels = LEVELS4[:3]
+    kvals = [data_levels[(i * 2 + 1) % 3] for i in range(6)]
+    x = env.column("x", 6)
+    df = env.frame({"y": env.column("y", 6), "x": x, "k": np.array(kvals, dtype=np.int64)})
+    order = [data_levels[1], data_levels[2], data_levels[0]]
+    decl = {"missing_one": order[:2], "extra_one": order + [77], "tuple": tuple(order), "tuple_T": tuple(order), "tuple_S": tuple(order)}[how]
+    call = {"tuple_T": f"T(k, {order[1]}, levels=lv)", "tuple_S": f"S(k, {order[0]}, levels=lv)"}.get(how, "C(k, levels=lv)")
+    try:
+        with env.running():
+            dm = design_matrices(f"y ~ 0 + x:{call}", df, extra_namespace={"lv": decl})
+        raised = None
+    except symx.PathEnd:
+        raise
+    except Exception as e:
+        dm, raised = None, e
+    if how in ("missing_one", "extra_one"):
+        env.prove(isinstance(raised, ValueError), "levels= that does not name exactly the levels of the data is refused with ValueError", {"declared": list(decl), "exc": type(raised).__name__ if raised else None})
+        return
+    if raised is not None:
+        env.fail("levels= given as a tuple is refused", {"exc": type(raised).__name__, "site": core.repo_site(raised)})
+        return
+    labels = [re.search(r"\[([^\[\]]*)\]$", str(c)).group(1) for c in dm.common.as_dataframe().columns]
+    if how == "tuple_S":
+        env.prove(labels == ["mean"] + [str(l) for l in order[1:]], "tuple levels= fixes the order (Sum, omitted level left out)")
+    else:
+        env.prove(labels == [str(l) for l in order], "tuple levels= fixes the order")
+
+
+def handed_out(env):
+    """objects the library hands out are the caller's to modify: a coding matrix obtained from an encoding
+    object and then overwritten must not show up in a later design"""
+    from formulae import design_matrices
+    from formulae.categorical import Sum, Treatment
+
+    lv = LEVELS4[:3]
+    for enc in (Treatment(), Sum()):
+        for fn in ("code_with_intercept", "code_without_intercept"):
+            cm = getattr(enc, fn)(list(lv))
+            M = np.asarray(cm.matrix)
+            M[...] = 7
+            if hasattr(cm, "labels") and isinstance(cm.labels, list):
+                cm.labels[:] = ["overwritten"] * len(cm.labels)
+    kvals = [lv[(i * 2 + 1) % 3] for i in range(6)]
+    x = env.column("x", 6)
+    df = env.frame({"y": env.column("y", 6), "x": x, "k": np.array(kvals, dtype=np.int64)})
+    for call, cols, sumc in (("C(k)", lv, False), ("S(k)", lv[:-1], True)):
+        for formula, full in ((f"y ~ 0 + x:{call}", True), (f"y ~ {call}", False)):
+            with env.running():
+                dm = design_matrices(formula, df)
+            name = f"x:{call}" if full else call
+            X = np.asarray(dm.common[name])
+            mult = x if full else np.ones(6, dtype=object)
+            if not sumc:
+                use = list(lv) if full else list(lv[1:])
+                want = np.array([[mult[i] * (1 if kvals[i] == l else 0) for l in use] for i in range(6)], dtype=object)
+            else:
+                body = [[mult[i] * (1 if kvals[i] == l else (-1 if kvals[i] == lv[-1] else 0)) for l in lv[:-1]] for i in range(6)]
+                want = np.array([([mult[i]] if full else []) + body[i] for i in range(6)], dtype=object)
+            if X.shape == want.shape:
+                env.prove_equal(X, want, "a coding matrix handed out earlier and overwritten by the caller does not leak into a later design")
+            else:
+                env.prove(False, "a coding matrix handed out earlier and overwritten by the caller does not leak into a later design (shape)", {"got": X.shape, "want": want.shape})
+            labels = [str(c) for c in dm.common.as_dataframe().columns]
+            env.prove(not any("overwritten" in l for l in labels), "... nor do its labels")
+
+
 def shared_encoding(env, kind, r):
     """one user-created encoding object used for two factors with different level sets"""
     from formulae import design_matrices
     from formulae.categorical import Sum, Treatment
 
     lv1 = LEVELS4[: harness.nl]
-    lv2 = [r] + [l + 10 for l in lv1 if l != r]  # r is first here, elsewhere in lv1
+    lv2 = ([r] if r is not None else []) + [l + 10 for l in lv1 if l != r]  # r is first here, elsewhere in lv1
     n = 2 * len(lv1)
     k1 = [lv1[(i * 2 + 1) % len(lv1)] if len(lv1) % 2 else lv1[(i * 3 + 1) % len(lv1)] for i in range(n)]
     k2 = [lv2[(i + 1) % len(lv2)] for i in range(n)]
     x = env.column("x", n)
     df = env.frame({"y": env.column("y", n), "x": x, "k": np.array(k1, dtype=np.int64), "m": np.array(k2, dtype=np.int64)})
-    enc = Sum(r) if kind == "shared_Sum" else Treatment(r)
+    if r is None:
+        mk = Sum if kind == "shared_Sum" else Treatment
+        enc = mk()
+        fresh = mk
+    enc = (Sum(r) if kind == "shared_Sum" else Treatment(r)) if r is not None else enc
     try:
         with env.running():
             dm = design_matrices("y ~ 0 + x:C(k, enc) + x:C(m, enc)", df, extra_namespace={"enc": enc})
-            fresh = (lambda: Sum(r)) if kind == "shared_Sum" else (lambda: Treatment(r))
+            if r is not None:
+                fresh = (lambda: Sum(r)) if kind == "shared_Sum" else (lambda: Treatment(r))
             dm2 = design_matrices("y ~ 0 + x:C(k, enc1) + x:C(m, enc2)", df, extra_namespace={"enc1": fresh(), "enc2": fresh()})
     except symx.PathEnd:
         raise
